@@ -39,6 +39,15 @@ fn sink() -> Option<&'static TraceSink> {
     .as_ref()
 }
 
+/// A small dense id for the calling thread (1, 2, ...).
+fn thread_index() -> u64 {
+    static NEXT: AtomicU64 = AtomicU64::new(1);
+    thread_local! {
+        static INDEX: u64 = NEXT.fetch_add(1, Ordering::Relaxed);
+    }
+    INDEX.with(|i| *i)
+}
+
 #[inline]
 pub(crate) fn tracing() -> bool {
     sink().is_some()
@@ -53,9 +62,10 @@ pub(crate) fn ev(name: &str, fields: std::fmt::Arguments) {
     guard.1 += 1;
     let seq = guard.1;
     let pid = std::process::id();
+    let tid = thread_index();
     let fields = fields.to_string();
     let sep = if fields.is_empty() { "" } else { "," };
-    let line = format!("{{\"ev\":\"{name}\",\"seq\":{seq},\"pid\":{pid}{sep}{fields}}}\n");
+    let line = format!("{{\"ev\":\"{name}\",\"seq\":{seq},\"pid\":{pid},\"tid\":{tid}{sep}{fields}}}\n");
     let _ = guard.0.write_all(line.as_bytes());
 }
 
